@@ -91,6 +91,24 @@ theorem set_index (n : Nat) (pos : Rat) (mode : IndexMode) (hm : mode ≠ .other
     Meets mode setCoord (setDom n) pos (setIndexOf n pos mode) :=
   setIndexOfT_meets setHitTol gen_tol_facts.2.2.1 gen_tol_facts.2.2.2 n pos mode hm hsep
 
+/-- "iff" forms: `ok i` iff `i` is the requested sample, `IndexError` iff there is none, never another
+error, never a negative index -/
+theorem sampled_index_iff (off si pos : Rat) (mode : IndexMode) (hsi : 0 < si) (hm : mode ≠ .other)
+    (hsep : SeparatedSampled off si pos) :
+    (∀ k : Nat, sampledIndexOf off si pos mode = .ok (k : Int) ↔ IsSample mode (sampledCoord off si) none pos k) ∧
+    (sampledIndexOf off si pos mode = .error .indexError ↔ ∀ k, ¬ IsSample mode (sampledCoord off si) none pos k) ∧
+    (∀ e, sampledIndexOf off si pos mode = .error e → e = .indexError) ∧
+    (∀ i : Int, sampledIndexOf off si pos mode = .ok i → 0 ≤ i) :=
+  meets_iff (sampled_index off si pos mode hsi hm hsep)
+
+theorem set_index_iff (n : Nat) (pos : Rat) (mode : IndexMode) (hm : mode ≠ .other)
+    (hsep : SeparatedAt setHitTol pos) :
+    (∀ k : Nat, setIndexOf n pos mode = .ok (k : Int) ↔ IsSample mode setCoord (setDom n) pos k) ∧
+    (setIndexOf n pos mode = .error .indexError ↔ ∀ k, ¬ IsSample mode setCoord (setDom n) pos k) ∧
+    (∀ e, setIndexOf n pos mode = .error e → e = .indexError) ∧
+    (∀ i : Int, setIndexOf n pos mode = .ok i → 0 ≤ i) :=
+  meets_iff (set_index n pos mode hm hsep)
+
 theorem range_indices_sampled (off si s e : Rat) (m : SliceMode) (hsi : 0 < si)
     (hs : SeparatedSampled off si s) (he : SeparatedSampled off si e) :
     MeetsRange m (sampledCoord off si) none s e (sampledRangeIndices off si s e m) :=
@@ -152,6 +170,26 @@ theorem set_index_full_counterexample : ¬ set_index_full := by
   subst this
   simp only [setCoord] at hle
   norm_num at hle
+
+/-- defect D5 (repaired by `fix:` 2389173), as a statement about the model: had the first-sample guard
+tested the raw position (`sampledZeroOnScaled = false`), offset −5 / interval 1 / position 0 / mode Less
+would be refused although sample 4 (coordinate −1) is the last one before the position — a
+failure no tolerance explains -/
+theorem guard_on_raw_position_counterexample :
+    ¬ Meets .less (sampledCoord (-5) 1) none 0
+        (sampledIndexOfT sampledZeroTol false sampledHitTol sampledRounding (-5) 1 0 .less) := by
+  have hv : sampledIndexOfT sampledZeroTol false sampledHitTol sampledRounding (-5) 1 0 .less
+      = .error .indexError := by decide +kernel
+  rw [hv]
+  rintro ⟨_, hnone⟩
+  apply hnone 4
+  refine ⟨inDom_none 4, ?_, ?_⟩
+  · rw [sampledCoord_eq]; norm_num
+  · intro j _ hj
+    rw [sampledCoord_eq] at hj
+    have : (j : Rat) < 5 := by linarith
+    have : j < 5 := by exact_mod_cast this
+    omega
 
 /-! ## round trips and axes -/
 
